@@ -10,3 +10,26 @@ package ast
 // number literals keep their spelling, which is never empty (parseUnary looks at its first byte)
 // @ typeinv ast.IntLiteral len(self.Value) > 0
 // @ typeinv ast.FloatLiteral len(self.Value) > 0
+
+// ---------------------------------------------------------------------------------------------
+// Operator precedence (C07). The table is written from the GoogleSQL operator-precedence table
+// (field/subscript < unary + - ~ < * / || < + - < << >> < & < ^ < | < comparison < NOT < AND < OR),
+// not from exprPrec.
+// @ spec binPrec(op) = ite(op == "*" || op == "/" || op == "||", 3, ite(op == "+" || op == "-", 4, ite(op == "<<" || op == ">>", 5, ite(op == "&", 6, ite(op == "^", 7, ite(op == "|", 8, ite(op == "AND", 11, ite(op == "OR", 12, 9))))))))
+// @ spec isBinOp(op) = op == "*" || op == "/" || op == "||" || op == "+" || op == "-" || op == "<<" || op == ">>" || op == "&" || op == "^" || op == "|" || op == "AND" || op == "OR" || op == "=" || op == "!=" || op == "<" || op == ">" || op == "<=" || op == ">=" || op == "LIKE" || op == "NOT LIKE"
+// @ spec unPrec(op) = ite(op == "NOT", 10, 2)
+// @ spec isUnOp(op) = op == "NOT" || op == "+" || op == "-" || op == "~"
+
+// exprPrec is total over every type that implements Expr (C04) and equals the table (C07).
+// @ func ast.exprPrec
+// @   props C04 C07
+// @   requires implements(e, "ast.Expr")
+// @   requires typeIs(e, "*ast.BinaryExpr") ==> isBinOp(as(e, "*ast.BinaryExpr").Op)
+// @   requires typeIs(e, "*ast.UnaryExpr") ==> isUnOp(as(e, "*ast.UnaryExpr").Op)
+// @   ensures[C07] bin: typeIs(e, "*ast.BinaryExpr") ==> result == binPrec(as(e, "*ast.BinaryExpr").Op)
+// @   ensures[C07] un: typeIs(e, "*ast.UnaryExpr") ==> result == unPrec(as(e, "*ast.UnaryExpr").Op)
+// @   ensures[C07] sel: typeIs(e, "*ast.IndexExpr") || typeIs(e, "*ast.SelectorExpr") ==> result == 1
+// @   ensures[C07] cmp: typeIs(e, "*ast.InExpr") || typeIs(e, "*ast.IsNullExpr") || typeIs(e, "*ast.IsBoolExpr") || typeIs(e, "*ast.BetweenExpr") ==> result == 9
+// @   ensures[C07] lit: !(typeIs(e, "*ast.BinaryExpr") || typeIs(e, "*ast.UnaryExpr") || typeIs(e, "*ast.IndexExpr") || typeIs(e, "*ast.SelectorExpr") || typeIs(e, "*ast.InExpr") || typeIs(e, "*ast.IsNullExpr") || typeIs(e, "*ast.IsBoolExpr") || typeIs(e, "*ast.BetweenExpr")) ==> result == 0
+// @   panics never
+// @   modifies nothing
